@@ -49,6 +49,7 @@ var c16Unsupported = []string{
 	"create-put-ignore-lease", "update-put-prevkv", "update-put-ignore-value", "update-put-ignore-lease",
 	"create-compare-key-differs", "update-compare-key-differs", "delete-compare-key-differs", "delete-range-end",
 	"delete-prevkv", "empty-txn", "failure-put", "update-failure-range-key-differs", "success-range-only", "compare-range-end",
+	"no-compare-put", "no-compare-delete", "no-compare-get", "failure-branch-only",
 }
 
 func genC16(t *rapid.T) interface{} {
@@ -226,6 +227,14 @@ func buildUnsupported(variant string, key, other, val []byte, rev int64) *etcdse
 		t := txnUpdate(key, val, rev)
 		t.Compare[0].RangeEnd = backend.PrefixEnd(key)
 		return t
+	case "no-compare-put":
+		return &etcdserverpb.TxnRequest{Success: []*etcdserverpb.RequestOp{opPut(key, val)}}
+	case "no-compare-delete":
+		return &etcdserverpb.TxnRequest{Success: []*etcdserverpb.RequestOp{opDel(key)}}
+	case "no-compare-get":
+		return &etcdserverpb.TxnRequest{Success: []*etcdserverpb.RequestOp{opGet(key)}}
+	case "failure-branch-only":
+		return &etcdserverpb.TxnRequest{Failure: []*etcdserverpb.RequestOp{opPut(key, val)}}
 	}
 	return &etcdserverpb.TxnRequest{}
 }
